@@ -158,17 +158,18 @@ ImplKeys(tabs, q) ==
 RenderIdx(tabs, pk) == ToString(pk[1]) \o "." \o tabs.tg[pk[2] + 1] \o "." \o tabs.tk[pk[3] + 1]
                          \o "." \o tabs.al[pk[4] + 1] \o "." \o tabs.sv[pk[5] + 1]
 
-ImplFind(tabs, q, index, limit) ==
-    LET pks == ImplKeys(tabs, q)
-        hi  == IF limit = NOLIMIT THEN Len(pks)
+(* the page of an already computed key list (so that callers can share pks) *)
+ImplPage(tabs, pks, index, limit) ==
+    LET hi  == IF limit = NOLIMIT THEN Len(pks)
                ELSE IF SliceBug THEN Min2(limit, Len(pks)) ELSE Min2(index + limit, Len(pks))
         pg  == IF index + 1 > hi THEN <<>> ELSE SubSeq(pks, index + 1, hi)
     IN [items |-> [i \in 1..Len(pg) |-> RenderIdx(tabs, pg[i])], total |-> Len(pks)]
+ImplFind(tabs, q, index, limit) == ImplPage(tabs, ImplKeys(tabs, q), index, limit)
 
-ImplFacet(tabs, q, d) ==
-    LET pks == ImplKeys(tabs, q)
-        got == {tabs[d][pks[i][DimPos[d]] + 1] : i \in DOMAIN pks}
+ImplFacetOf(tabs, pks, d) ==
+    LET got == {tabs[d][pks[i][DimPos[d]] + 1] : i \in DOMAIN pks}
     IN SelectSeq(NameOrder[d], LAMBDA n : n \in got)
+ImplFacet(tabs, q, d) == ImplFacetOf(tabs, ImplKeys(tabs, q), d)
 
 (* ---- index tables of a database filled key by key (util.append) ----    *)
 (* an algorithm entry is identified by (task, name, version), a state      *)
